@@ -166,6 +166,16 @@ def gen_mono(tp):
     # the first event creates the synth: it is never a rest here
     if isinstance(keys['dur'][0], list):
         keys['dur'][0] = keys['dur'][0][1]
+    if tp.draw(3) == 0:
+        # articulated voice (no rests here): legato decides per event
+        # whether the node is held or released
+        keys['dur'] = [d[1] if isinstance(d, list) else d
+                       for d in keys['dur']]
+        keys['legato'] = [tp.choice([1, 1, 0.5, 1.5, 0.25])
+                          for _ in keys['dur']]
+        keys.pop('sustain', None)
+        return ['mono', keys,
+                tp.choice(['default', 'default', 'test', 'nogate']), True]
     return ['mono', keys, tp.choice(['default', 'default', 'test', 'nogate'])]
 
 
@@ -451,6 +461,31 @@ MONO_ID = [0]
 def expand(p, inherited=None):
     """pattern -> list of (offset, event keys) and total duration"""
     k = p[0]
+    if k == 'mono' and len(p) > 3 and p[3]:
+        # articulated: an event whose sustain reaches its delta starts (or
+        # keeps) a node, one that ends before its delta releases the node
+        # after its sustain - or, without a node, is an ordinary note
+        evs, tot = expand(['bind', p[1], p[2]])
+        node = None
+
+        def close_voice(node, t_rel):
+            MONO_ID[0] += 1
+            for i, e in enumerate(node['evs']):
+                e['_mono'] = (MONO_ID[0], i, t_rel - node['t0'],
+                              len(node['evs']))
+        for t, ev in evs:
+            r = resolve(ev)
+            if node is None:
+                if r['sustain'] >= r['delta']:
+                    node = {'t0': t, 'evs': [ev]}
+            else:
+                node['evs'].append(ev)
+                if r['sustain'] < r['delta']:
+                    close_voice(node, t + r['sustain'])
+                    node = None
+        if node is not None:
+            close_voice(node, tot)
+        return evs, tot
     if k == 'mono':
         evs, tot = expand(['bind', p[1], p[2]])
         MONO_ID[0] += 1
@@ -547,7 +582,7 @@ def build_pattern(p):
         from sc3.seq.patterns.eventpatterns import Pmono
         b = build_pattern(['bind', p[1], p[2]])
         b.dict.pop('instrument', None)
-        return Pmono(p[2], b.dict)
+        return Pmono(p[2], b.dict, articulate=len(p) > 3 and bool(p[3]))
     if k == 'chain':
         a = build_pattern(p[1])
         a.dict.pop('instrument', None)
@@ -1028,6 +1063,11 @@ def run_case(case, tape, ctx):
     stats = {}
     if case.get('redef'):
         stats['instrument-redefined'] = 1
+    if "'mono'" in repr(case.get('pats')) and ", True]" in repr(
+            case.get('pats')):
+        stats['articulated-mono-patterns'] = 1
+    if "'seq'" in repr(case.get('pats')):
+        stats['sequenced-patterns'] = 1
     nrt = S.subrun(tape, lambda st, emit: run_nrt(case, st, emit))
     rt = S.subrun(tape, lambda st, emit: run_rt(case, st, emit))
     agg = W.combine([rt])
